@@ -269,3 +269,172 @@ def enc_struct(items) -> bytes:
             c = v[i:i + 255]
             out += bytes([t, len(c)]) + c
     return bytes(out)
+
+
+# ------------------------------------------------------------------ reference accessory: identity, pair-verify, pair-setup
+class RefIdentity:
+    """Long-term identity of the reference accessory and the controllers it has paired with."""
+
+    def __init__(self, pairing_id: bytes, ltsk_seed: bytes):
+        self.pairing_id = bytes(pairing_id)
+        self.ltsk = ed_from_seed(ltsk_seed)
+        self.ltpk = ed_pub(self.ltsk)
+        self.controllers: dict[bytes, bytes] = {}      # controller pairing id -> LTPK
+        self.sessions: dict[bytes, bytes] = {}         # resume session id -> shared secret
+
+
+PV_SALT, PV_INFO = b"Pair-Verify-Encrypt-Salt", b"Pair-Verify-Encrypt-Info"
+
+
+class RefPairVerify:
+    """Accessory side of one pair-verify exchange (HAP 5.7, resume: HAP-BLE 7.2.2 / table 6-27)."""
+
+    def __init__(self, ident: RefIdentity, eph_seed: bytes, new_session_id: bytes | None = None, allow_resume: bool = True):
+        self.ident = ident
+        self.sk = x_from_seed(eph_seed)
+        self.pk = x_pub(self.sk)
+        self.new_session_id = new_session_id or hashlib.sha256(b"sid" + eph_seed).digest()[:8]
+        self.allow_resume = allow_resume
+        self.ios_pk = None
+        self.shared = None
+        self.session_key = None
+        self.resumed = False
+        self.verified = False          # controller proof (M3) accepted, or resume request authenticated
+        self.m3_seen = False
+        self.m3_error = None
+
+    # --- M1 -> M2
+    def handle_m1(self, items):
+        d = dict(items)
+        self.ios_pk = bytes(d[T_PK])
+        if d.get(T_METHOD) == b"\x06" and self.allow_resume:
+            sid = bytes(d.get(T_SESSIONID, b""))
+            old = self.ident.sessions.get(sid)
+            if old is not None:
+                rk = hkdf_sha512(old, self.ios_pk + sid, b"Pair-Resume-Request-Info")
+                if aead_dec(rk, nonce(b"PR-Msg01"), bytes(d.get(T_ENC, b"")), b"") == b"":
+                    return self.resume_m2(old, sid)
+        return self.full_m2()
+
+    def resume_m2(self, old_shared, old_sid, *, response_secret=None, hkdf_sid=None, label=b"PR-Msg02", info=b"Pair-Resume-Response-Info", method=b"\x06"):
+        new_sid = self.new_session_id
+        rsp_key = hkdf_sha512(response_secret if response_secret is not None else old_shared,
+                              self.ios_pk + (hkdf_sid if hkdf_sid is not None else new_sid), info)
+        self.shared = hkdf_sha512(old_shared, self.ios_pk + new_sid, b"Pair-Resume-Shared-Secret-Info")
+        self.ident.sessions.pop(old_sid, None)
+        self.ident.sessions[new_sid] = self.shared
+        self.resumed = True
+        self.verified = True
+        items = [(T_STATE, b"\x02")]
+        if method is not None:
+            items.append((T_METHOD, method))
+        items += [(T_SESSIONID, new_sid), (T_ENC, aead_enc(rsp_key, nonce(label), b"", b""))]
+        return items
+
+    def derive_shared(self):
+        self.shared = self.sk.exchange(x25519.X25519PublicKey.from_public_bytes(self.ios_pk))
+        self.session_key = hkdf_sha512(self.shared, PV_SALT, PV_INFO)
+
+    def inner_m2(self, *, sign_key=None, ident_id=None, transcript=None):
+        idb = self.ident.pairing_id if ident_id is None else ident_id
+        msg = transcript if transcript is not None else self.pk + idb + self.ios_pk
+        sig = (sign_key or self.ident.ltsk).sign(msg)
+        return [(T_ID, idb), (T_SIG, sig)]
+
+    def full_m2(self, inner=None, *, enc_key=None, label=b"PV-Msg02"):
+        self.derive_shared()
+        inner = self.inner_m2() if inner is None else inner
+        enc = aead_enc(enc_key or self.session_key, nonce(label), tlv_enc(inner), b"")
+        return [(T_STATE, b"\x02"), (T_PK, self.pk), (T_ENC, enc)]
+
+    # --- M3 -> M4
+    def handle_m3(self, items):
+        self.m3_seen = True
+        d = dict(items)
+        try:
+            if d.get(T_STATE) != b"\x03":
+                raise ValueError("state")
+            pt = aead_dec(self.session_key, nonce(b"PV-Msg03"), bytes(d[T_ENC]), b"")
+            if pt is None:
+                raise ValueError("PV-Msg03 does not authenticate")
+            sub = dict(tlv_dec(pt))
+            ltpk = self.ident.controllers.get(sub[T_ID])
+            if ltpk is None:
+                raise ValueError("unknown controller")
+            if not ed_verify(ltpk, sub[T_SIG], self.ios_pk + sub[T_ID] + self.pk):
+                raise ValueError("controller signature")
+        except (KeyError, ValueError, RefTlvError) as e:
+            self.m3_error = str(e)
+            return [(T_STATE, b"\x04"), (T_ERROR, b"\x02")]
+        self.verified = True
+        sid = hkdf_sha512(self.shared, b"Pair-Verify-ResumeSessionID-Salt", b"Pair-Verify-ResumeSessionID-Info", 8)
+        self.ident.sessions[sid] = self.shared
+        self.session_id = sid
+        return [(T_STATE, b"\x04")]
+
+    def key(self, salt: bytes, info: bytes, length: int = 32) -> bytes:
+        return hkdf_sha512(self.shared, salt, info, length)
+
+
+PS_ENC = (b"Pair-Setup-Encrypt-Salt", b"Pair-Setup-Encrypt-Info")
+PS_CSIGN = (b"Pair-Setup-Controller-Sign-Salt", b"Pair-Setup-Controller-Sign-Info")
+PS_ASIGN = (b"Pair-Setup-Accessory-Sign-Salt", b"Pair-Setup-Accessory-Sign-Info")
+
+
+class RefPairSetup:
+    """Accessory side of one pair-setup exchange (HAP 5.6)."""
+
+    def __init__(self, ident: RefIdentity, code: str, salt: bytes, b: int):
+        self.ident = ident
+        self.srp = SrpExchange(code, salt, b)
+        self.m3_ok = False
+        self.m5_ok = False
+        self.m5_error = None
+        self.controller_id = None
+        self.controller_ltpk = None
+
+    def m2(self):
+        return [(T_STATE, b"\x02"), (T_PK, PAD(self.srp.B)), (T_SALT, self.srp.salt)]
+
+    def handle_m3(self, items):
+        d = dict(items)
+        A = int.from_bytes(bytes(d.get(T_PK, b"")), "big")
+        if d.get(T_STATE) != b"\x03" or A % SRP_N == 0 or len(d.get(T_PK, b"")) != 384:
+            return [(T_STATE, b"\x04"), (T_ERROR, b"\x02")]
+        self.srp.finish(A)
+        if bytes(d.get(T_PROOF, b"")) != self.srp.M1:
+            return [(T_STATE, b"\x04"), (T_ERROR, b"\x02")]
+        self.m3_ok = True
+        self.enc_key = hkdf_sha512(self.srp.K, *PS_ENC)
+        return [(T_STATE, b"\x04"), (T_PROOF, self.srp.M2)]
+
+    def handle_m5(self, items):
+        d = dict(items)
+        try:
+            if not self.m3_ok or d.get(T_STATE) != b"\x05":
+                raise ValueError("state")
+            pt = aead_dec(self.enc_key, nonce(b"PS-Msg05"), bytes(d[T_ENC]), b"")
+            if pt is None:
+                raise ValueError("PS-Msg05 does not authenticate")
+            sub = dict(tlv_dec(pt))
+            cx = hkdf_sha512(self.srp.K, *PS_CSIGN)
+            if len(sub[T_PK]) != 32 or not ed_verify(sub[T_PK], sub[T_SIG], cx + sub[T_ID] + sub[T_PK]):
+                raise ValueError("controller signature")
+        except (KeyError, ValueError, RefTlvError) as e:
+            self.m5_error = str(e)
+            return [(T_STATE, b"\x06"), (T_ERROR, b"\x02")]
+        self.m5_ok = True
+        self.controller_id, self.controller_ltpk = sub[T_ID], sub[T_PK]
+        self.ident.controllers[sub[T_ID]] = sub[T_PK]
+        return self.m6()
+
+    def inner_m6(self, *, sign_key=None, ident_id=None, ltpk=None, transcript=None):
+        idb = self.ident.pairing_id if ident_id is None else ident_id
+        pk = self.ident.ltpk if ltpk is None else ltpk
+        ax = hkdf_sha512(self.srp.K, *PS_ASIGN)
+        sig = (sign_key or self.ident.ltsk).sign(transcript(ax, idb, pk) if transcript else ax + idb + pk)
+        return [(T_ID, idb), (T_PK, pk), (T_SIG, sig)]
+
+    def m6(self, inner=None, *, enc_key=None, label=b"PS-Msg06"):
+        inner = self.inner_m6() if inner is None else inner
+        return [(T_STATE, b"\x06"), (T_ENC, aead_enc(enc_key or self.enc_key, nonce(label), tlv_enc(inner), b""))]
